@@ -257,38 +257,44 @@ pub fn names(list: &[&[u8]]) -> String {
     if list.is_empty() {
         return "empty-list".into();
     }
-    // alphanumeric / non-alphanumeric runs are the tokens; the format has 128 token positions per
-    // name, two of which are the name-type and the end marker
-    let tokens = |n: &[u8]| n.chunk_by(|a, b| a.is_ascii_alphanumeric() == b.is_ascii_alphanumeric()).count();
-    if list.iter().any(|n| tokens(n) > 126) {
-        return "name-with>126-tokens".into();
-    }
-    // a digit token with leading zeros at a token position where an earlier name has a digit token
-    // without (the two must not be coded as a numeric delta)
-    let toks = |n: &'_ [u8]| -> Vec<Vec<u8>> {
-        n.chunk_by(|a, b| a.is_ascii_alphanumeric() == b.is_ascii_alphanumeric()).map(|t| t.to_vec()).collect()
-    };
-    let digits = |t: &[u8]| !t.is_empty() && t.iter().all(u8::is_ascii_digit);
-    let all: Vec<Vec<Vec<u8>>> = list.iter().map(|n| toks(n)).collect();
-    for i in 1..all.len() {
-        for (p, t) in all[i].iter().enumerate() {
-            if digits(t) && t.len() > 1 && t[0] == b'0' {
-                for prev in &all[..i] {
-                    if let Some(q) = prev.get(p) {
-                        if digits(q) && q[0] != b'0' {
-                            return "leading-zero-digits-after-plain-digits".into();
-                        }
-                    }
-                }
-            }
-        }
-    }
-    let dup = (0..list.len()).any(|i| (0..i).any(|j| list[i] == list[j]));
     let n = match list.len() {
         1 => "1",
         2 => "2",
         3 => "3",
         _ => "4+",
     };
-    format!("names:{n},{}", if dup { "with-duplicates" } else { "distinct" })
+    format!("names:{n},{}", names_feature(list))
+}
+
+fn names_feature(list: &[&[u8]]) -> &'static str {
+    // alphanumeric / non-alphanumeric runs are the tokens; the format has 128 token positions per
+    // name, two of which are the name-type and the end marker
+    let toks = |n: &'_ [u8]| -> Vec<Vec<u8>> {
+        n.chunk_by(|a, b| a.is_ascii_alphanumeric() == b.is_ascii_alphanumeric()).map(|t| t.to_vec()).collect()
+    };
+    let all: Vec<Vec<Vec<u8>>> = list.iter().map(|n| toks(n)).collect();
+    if all.iter().any(|t| t.len() > 126) {
+        return "name-with>126-tokens";
+    }
+    // a digit token with leading zeros at a token position where an earlier name has a digit token
+    // without (the two must not be coded as a numeric delta)
+    let digits = |t: &[u8]| !t.is_empty() && t.iter().all(u8::is_ascii_digit);
+    for i in 1..all.len() {
+        for (p, t) in all[i].iter().enumerate() {
+            if digits(t) && t.len() > 1 && t[0] == b'0' {
+                for prev in &all[..i] {
+                    if let Some(q) = prev.get(p) {
+                        if digits(q) && q[0] != b'0' {
+                            return "leading-zero-digits-after-plain-digits";
+                        }
+                    }
+                }
+            }
+        }
+    }
+    if (0..list.len()).any(|i| (0..i).any(|j| list[i] == list[j])) {
+        "with-duplicates"
+    } else {
+        "distinct"
+    }
 }
